@@ -192,10 +192,21 @@ pub struct RScenario {
 }
 
 fn sweep_reader(bytes: &[u8], pws: &[Option<Vec<u8>>], stream: bool, start: usize, info: &mut Info) -> Result<(), String> {
+    sweep_reader_x(bytes, pws, stream, start, info, &[4096], false)?;
+    if !stream && pws.iter().any(|p| p.is_some()) {
+        // encrypted entries once more with a persistent caller: tiny buffers, and read() is called again
+        // after an error ("no panic, then or on any later call")
+        info.label("persistent-small-buffer-caller");
+        sweep_reader_x(bytes, pws, stream, start, info, &[5], true)?;
+    }
+    Ok(())
+}
+
+fn sweep_reader_x(bytes: &[u8], pws: &[Option<Vec<u8>>], stream: bool, start: usize, info: &mut Info, bufs: &[usize], persist: bool) -> Result<(), String> {
     let run = |fail_at: usize, mode: (bool, u8), record: bool| -> Result<(Result<Vec<EObs>, ()>, usize, Vec<u8>), String> {
         let st = FaultState::new_kind(fail_at, mode.0, record, mode.1);
         let r = if stream {
-            let (v, complete) = observe_stream(NoSeek(FaultIo::new(Cursor::new(&bytes[start..]), st.clone())), &[4096])?;
+            let (v, complete) = observe_stream(NoSeek(FaultIo::new(Cursor::new(&bytes[start..]), st.clone())), bufs)?;
             if complete {
                 Ok(v)
             } else {
@@ -203,7 +214,7 @@ fn sweep_reader(bytes: &[u8], pws: &[Option<Vec<u8>>], stream: bool, start: usiz
                 Ok(v.into_iter().chain(std::iter::once(EObs::failed())).collect())
             }
         } else {
-            observe_seekable(FaultIo::new(Cursor::new(bytes), st.clone()), pws, &[4096])?
+            super::c09::observe_seekable_x(FaultIo::new(Cursor::new(bytes), st.clone()), pws, bufs, persist)?
         };
         let kinds = st.kinds.lock().unwrap().clone();
         Ok((r, st.count(), kinds))
@@ -215,9 +226,9 @@ fn sweep_reader(bytes: &[u8], pws: &[Option<Vec<u8>>], stream: bool, start: usiz
         // streaming: one-shot only. A sticky failure also hits the drop-time drain of the entry
         // whose read just failed, and that drain panics by design ("Could not consume all of the
         // output of the current ZipFile") - a Drop, not a Result-returning call.
-        for mode in if stream { &MODES_ONESHOT[..] } else { &MODES[..] } {
+        for mode in if stream { &MODES_ONESHOT[..] } else if persist { &MODES[..2] } else { &MODES[..] } {
             let mode = *mode;
-            let sticky = format!("{}, kind={}", mode.0, crate::sio::ek_name(mode.1));
+            let sticky = format!("{}, kind={}{}", mode.0, crate::sio::ek_name(mode.1), if persist { "; caller reads 5 bytes at a time and calls read() again after an error" } else { "" });
             FAULT_RUNS.fetch_add(1, Ordering::Relaxed);
             BY_KIND[kinds[k] as usize].fetch_add(1, Ordering::Relaxed);
             let (r, _, _) = catch(|| run(k, mode, false)).map_err(|p| format!("PANIC in the {} reader with a fault injected at I/O call {k} ({}; sticky={sticky}): {p}", if stream { "streaming" } else { "seekable" }, kind_name(kinds[k])))??;
@@ -308,7 +319,7 @@ fn sweep_big_open(n_entries: u32, kmax: usize, append: bool) -> Result<(), Strin
 }
 
 pub fn run(ctx: &mut Ctx) {
-    ctx.rule("each scenario is first run failure-free under a counting stream (n I/O calls), then re-run with a hard error injected at EVERY call index k<n, as a one-shot and as a sticky failure of kind Other, and with the kinds UnexpectedEof (one-shot, sticky) and Interrupted (one-shot: std's own retry loops swallow it, then the result must be the failure-free one); after the first error the scenario keeps issuing its remaining calls, then finish(), a second finish() and drop. readers: open + read every entry (seekable; streaming fully consumed) of the seed archives (plain, ZIP64, ZipCrypto, AES) and generated archives. writers: generated programs over all entry kinds, methods, extra data, aligned, ZipCrypto, optional append base and raw copies, completed by finish or drop. big_open: archives with > 65535 entries, a fault at every one of the first K I/O calls (quick 48, thorough 200) of ZipArchive::new and of new_append (+1 entry, finish). Oracle: no panic/abort anywhere; if no call returned an error the logical result (entries, content, comment as seen by the crate reader and the independent parser) equals the failure-free result. Non-trivial = the failure-free run performs >=1 I/O call. evaluations counts scenarios; coverage.fault_runs counts injected-fault executions.");
+    ctx.rule("each scenario is first run failure-free under a counting stream (n I/O calls), then re-run with a hard error injected at EVERY call index k<n, as a one-shot and as a sticky failure of kind Other, and with the kinds UnexpectedEof (one-shot, sticky) and Interrupted (one-shot: std's own retry loops swallow it, then the result must be the failure-free one); after the first error the scenario keeps issuing its remaining calls, then finish(), a second finish() and drop. readers: open + read every entry (seekable; streaming fully consumed; archives with encrypted entries a second time with a caller that reads 5 bytes at a time and calls read() again after an error) of the seed archives (plain, ZIP64, ZipCrypto, AES) and generated archives. writers: generated programs over all entry kinds, methods, extra data, aligned, ZipCrypto, optional append base and raw copies, completed by finish or drop. big_open: archives with > 65535 entries, a fault at every one of the first K I/O calls (quick 48, thorough 200) of ZipArchive::new and of new_append (+1 entry, finish). Oracle: no panic/abort anywhere; if no call returned an error the logical result (entries, content, comment as seen by the crate reader and the independent parser) equals the failure-free result. Non-trivial = the failure-free run performs >=1 I/O call. evaluations counts scenarios; coverage.fault_runs counts injected-fault executions.");
     ctx.assume("streaming entries are read to the end, so the failure lands in a Result-returning call (the documented panic in the streaming ZipFile's drop-time drain is outside the property's wording)");
     ctx.assume("completion by drop swallows errors by design; for drop scenarios only the no-panic clause is checked");
     let seeds = seeds::small_seeds();
